@@ -314,6 +314,9 @@ class Machine:
         self.depth += 1
         try:
             return self._run(s, env)
+        except (AttributeError, TypeError, KeyError, IndexError, ValueError, ArithmeticError) as e:
+            # an operation of the model values the interpreter does not support (a method a model object does not have ...)
+            raise Unknown(f"operation outside the model: {e!r}") from None
         finally:
             self.depth -= 1
 
@@ -615,7 +618,9 @@ class Machine:
                 c_, fn = found
                 ms = self.summ.of_node(c_.module, fn, f"{c_.qual}.{name}", c_)
                 decos = [_ast.unparse(d) for d in fn.decorator_list]
-                if "property" in decos or "cached_property" in decos or "functools.cached_property" in decos:
+                if "cached_property" in decos or "functools.cached_property" in decos:
+                    raise Unknown(f"{name} is a cached property: its value depends on when it was first read")
+                if "property" in decos:
                     return self.apply_summary(ms, [], {}, {}, selfval=base)
                 if "staticmethod" in decos:
                     return lambda *a, **kw: self.apply_summary(ms, list(a), kw, {})
@@ -627,7 +632,7 @@ class Machine:
                     return lambda: dict(base.fields)
                 return lambda **kw: _Record(base.ci, {**base.fields, **kw}, True)
             raise Unknown(f"attribute {name} of a {base.ci.name}")
-        if isinstance(base, tuple) and name not in _METHODS:
+        if isinstance(base, tuple) and not hasattr(base, name):
             # the engine carries NamedTuple records as plain tuples: the one record class of the package with that many fields that has
             # this field / property / method
             import ast as _ast
